@@ -30,3 +30,69 @@ def check_table(cfg, sizes, rnd):
     if not all(np.array_equal(np.asarray(a), np.asarray(b)) for a, b in zip(t, r)):
         return False, 'biort(%r) differs from the reference table' % name
     return True, 'ok'
+
+
+def _build64(cls, **kw):
+    old = torch.get_default_dtype()
+    torch.set_default_dtype(torch.float64)
+    try:
+        return cls(**kw)
+    finally:
+        torch.set_default_dtype(old)
+
+
+BIORTS = ['antonini', 'legall', 'near_sym_a', 'near_sym_b']
+QSHIFTS = ['qshift_06', 'qshift_a', 'qshift_b', 'qshift_c', 'qshift_d']
+
+
+@register('dtcwt_grad')
+def check_dtcwt_grad(cfg, sizes, rnd):
+    """autograd through the real DTCWTForward / DTCWTInverse vs J^T g (J assembled from the real forward)"""
+    from pytorch_wavelets import DTCWTForward, DTCWTInverse
+    biort, qshift = cfg.get('biort', 'near_sym_a'), cfg.get('qshift', 'qshift_a')
+    J = _sz(sizes, 'J', 2, 1, 3)
+    H, W = _sz(sizes, 'H', 8, 2, 20), _sz(sizes, 'W', 6, 2, 20)
+    o_dim, ri_dim = cfg.get('o_dim', 2), cfg.get('ri_dim', -1)
+    skip = cfg.get('skip_hps', False)
+    inc = cfg.get('include_scale', False)
+    rs = np.random.RandomState(rnd.randint(0, 10**6))
+    fwd = _build64(DTCWTForward, biort=biort, qshift=qshift, J=J, o_dim=o_dim, ri_dim=ri_dim, skip_hps=skip, include_scale=inc)
+
+    def flat(o):
+        yl, yh = o
+        parts = [t for t in (yl if isinstance(yl, (list, tuple)) else [yl])] + list(yh)
+        return torch.cat([p.reshape(-1) for p in parts if p.numel() > 0 and p.dim() > 0])
+    if cfg.get('which', 'forward') == 'forward':
+        x = torch.tensor(rs.randn(1, 1, H, W))
+        f = lambda t: flat(fwd(t))
+        inputs = [x]
+        needs = [True]
+    else:
+        inv = _build64(DTCWTInverse, biort=biort, qshift=qshift, o_dim=o_dim, ri_dim=ri_dim)
+        yl, yh = _build64(DTCWTForward, biort=biort, qshift=qshift, J=J, o_dim=o_dim, ri_dim=ri_dim)(torch.tensor(rs.randn(1, 1, H, W)))
+        inputs = [torch.tensor(rs.randn(*yl.shape))] + [torch.tensor(rs.randn(*h.shape)) for h in yh]
+        needs = cfg.get('needs') or [True] * len(inputs)
+        needs = (list(needs) + [True] * len(inputs))[:len(inputs)]
+        f = lambda *ts: inv((ts[0], list(ts[1:]))).reshape(-1)
+    y0 = f(*inputs)
+    g = torch.tensor(rs.randn(y0.numel()))
+    for k, need in enumerate(needs):
+        if not need:
+            continue
+        n = inputs[k].numel()
+        if n > 700:
+            continue
+        Jt = np.zeros(n)
+        for m in range(n):
+            e = [torch.zeros_like(t) for t in inputs]
+            e[k].reshape(-1)[m] = 1.0
+            Jt[m] = float((f(*e) * g).sum())
+        inp = [t.clone().requires_grad_(bool(nd)) for t, nd in zip(inputs, needs)]
+        gr = torch.autograd.grad((f(*inp) * g).sum(), inp[k], allow_unused=True)[0]
+        if gr is None:
+            return False, 'input %d requires grad but receives None (%s)' % (k, cfg)
+        ok, det = _close(gr.reshape(-1).numpy(), Jt, 1e-8)
+        if not ok:
+            return False, 'DTCWT %s %s/%s J=%d HxW=%dx%d layout=(%d,%d): gradient of input %d is not J^T g (%s)' % (
+                cfg.get('which', 'forward'), biort, qshift, J, H, W, o_dim, ri_dim, k, det)
+    return True, 'ok %s' % (cfg,)
